@@ -1,6 +1,7 @@
 """C10 - Regenerated profile text preserves every token (grammar-level analysis).
 
-R1/R2/R5 work on the compiled grammar.  R3 is about the Python side of the round trip and locates its subjects by role:
+R1/R2/R5/R7 work on the compiled grammar (R7: on its terminal table).  R3 and R8 are about the Python side of the round
+trip and locate their subjects by role:
 
 * the *renderer* is the function of c2profile.py that calls `.reconstruct(...)` on a lark `Reconstructor(...)`
   (`C2Profile.as_text` if it still does; temporaries, a module-level reconstructor, positional or keyword arguments do
@@ -22,6 +23,23 @@ R1/R2/R5 work on the compiled grammar.  R3 is about the Python side of the round
   The rule looks at what flows into `yield`, not at how the loop is written: an early `continue`, an index loop with the
   last element split off, `yield from` of a prepared list, a join, a concatenated or hoisted separator, an extracted
   helper generator give the same verdict.
+
+* R7 (comments and whitespace stay ignored in every parser state): lark's lalr lexers try the terminals of a state as one
+  alternation ordered by (priority, width, pattern length, name) and the first alternative that matches wins; the
+  ignored terminals are offered in every state.  A non-ignored terminal T of a reachable rule that is tried BEFORE an
+  ignored terminal I and has a word that begins a word of I (decided on the syntax trees: I has the shape F C* / C+, some
+  word of T lies inside F C*) takes the text away from I wherever the parser can expect T: a comment there is handed to
+  the parser instead of being skipped.  Violated only when such a word is established; tried-before with a possibly
+  common first character but no established word -> undecided; first characters disjoint, or I tried first -> discharged.
+  (That I wins from T - the unchanged grammar's `"#" "dns_resolver"` production can never be lexed - is NOT a condition
+  of this rule: it makes a production unreachable, it does not make an accepted profile print differently.)
+* R8 (the tree the parser produced is the tree that is printed): in the reader, in the renderer, in the package functions
+  they hand the tree to, and in any other function of c2profile.py that obtains a parse tree / parsed profile, nothing
+  that MAY BE A PART of the tree (may-alias value flow through attributes, items, iteration, unpacking, navigation
+  methods, constructor arguments, calls of package functions; fresh collections of parts are told apart from parts) is
+  the target of a mutator call, an item/slice store or delete, a store to `.children`/`.data`, an in-place `+=`.
+  The builder API (`set_option` ...: methods that never see a parser result) is not concerned.  A part handed to lark's
+  `visit`/`transform` dispatch -> undecided.
 
 Undecided (never violated): no reconstruct call / no post-processor function can be located, or the post-processor has
 a form the value flow does not recognise (`_Undecided`, `_Unk` values: several buffers, a pipeline of generators, zip or
@@ -47,6 +65,13 @@ Technique (numbers: RULES_GUIDE "What counts as static here", ALLOWED 1-6)
       (line length is unbounded).  No stream, line length or item text is ever chosen by the checker.
   R5  6 (every block rule of the compiled grammar has an alternative with an empty body).
   R6  imported C12.R4 (regex syntax tree of the STRING terminal) - see rules/c12.py.
+  R7  6 (compiled terminal table: priority, width, pattern of every terminal, compared completely in lark's documented
+      lexer order; regexp terminals and string terminals inspected as syntax trees: first-character classes, the shape
+      F C* of an ignored terminal, existence of a word of another terminal inside F C* by a walk over its tree with a
+      two-valued state) + 5 (the terminal vocabulary is the grammar's own).  No text is lexed, no sample string is formed.
+  R8  1 (reader / renderer by role, resolved callees, argument binding) + 3 (def-use / may-alias value flow over names and
+      dotted paths, flow-insensitive fixpoint per function, summaries of package callees per abstract argument kinds);
+      the abstract domain has three values (part of the tree / fresh collection of parts / profile holding a tree).
 """
 
 from __future__ import annotations
@@ -80,16 +105,30 @@ def run(ctx):
         "are summarised from one walk of their body; nothing is executed and no input stream is chosen): on every path "
         "yielded items ++ buffer == W, each item unchanged, once, in order, words kept apart; the paths that keep the "
         "buffer are not taken for the symbols a sentence of the grammar can end with (LAST set of `start`, computed from "
-        "the rules). Plus as_text/from_text use the same parser on the profile's own tree / source."
+        "the rules). Plus as_text/from_text use the same parser on the profile's own tree / source. Plus (R7) the ignored "
+        "terminals (comments, whitespace) keep lexical precedence: no terminal of a reachable rule that lark's lexer tries "
+        "earlier (order: priority, width, pattern length, name; first match wins) has a word that begins a comment / "
+        "whitespace word - decided on the terminal table and regex syntax trees. Plus (R8) no function that obtains the "
+        "parser's tree (reader, renderer, what they call, any other function of c2profile.py that gets a parsed profile) "
+        "structurally modifies a part of it - a may-alias value flow from the `.parse(...)` result / the profile's `.tree` to "
+        "mutator calls, item stores / deletes and `.children` / `.data` stores."
     )
     rep.not_decided = ["text equality for all sentences of the language", "whitespace handling by the lexer",
                        "post-processors of another shape than `buffer the items of a line, write the line out on a terminator` (several buffers, a pipeline of generators, "
                        "zip/comprehension based emission, try/with/while forms): undecided, never violated",
-                       "feasibility of a path whose branch tests the analysis treats as opaque (membership of a constant in the buffer, predicates on the item text): both outcomes are followed"]
+                       "feasibility of a path whose branch tests the analysis treats as opaque (membership of a constant in the buffer, predicates on the item text): both outcomes are followed",
+                       "R7: terminals with regex flags, ignored terminals of another shape than F C* / C+ when a terminal that may start alike is tried before them (undecided); whether an ignored "
+                       "terminal shadows a production (the `\"#\" \"dns_resolver\"` line can never be lexed: it is printed as a comment and read as one)",
+                       "R8: modifications of the tree by code outside the package that is handed a part of it (lark's visit / transform dispatch: undecided; other library calls: trusted not to "
+                       "modify), by methods the application calls between from_text and as_text (builder API), through a `tree` property / __setattr__ hook, or through aliases kept in containers"]
     rep.trusted_base = ["lark 1.3.1 grammar loader and its TreeMatcher grouping rule (lark/tree_matcher.py: rules equal on (origin, kept expansion) are merged, first wins)",
                         "lark 1.3.1 Reconstructor.reconstruct(tree, postproc=None, insert_spaces=True): the item stream (one str per terminal of the matched rules, in sentence order) is passed "
                         "through postproc and joined; with insert_spaces a space is put between two consecutive non-empty yielded strings whose facing characters are identifier characters",
                         "CPython ast; python's sre parser for the syntax tree of regexp terminals",
+                        "lark 1.3.1 lexer (lark/lexer.py): BasicLexer sorts the terminals by (-priority, -max_width, -len(pattern), name) and its Scanner joins them into one alternation, so the "
+                        "first terminal in that order that matches at a position wins; the contextual lexer does the same per parser state with the terminals the state accepts plus the ignored ones",
+                        "lark Tree / Token API: a Tree's tokens live in `.children` (recursively) and `.data`; Tree.copy() shares the children list; Token is an immutable str; "
+                        "what lark's Reconstructor itself does with the tree it is handed is outside R8",
                         "assumption A1: the stream handed to the post-processor is a sentence of c2profile.lark (it is produced from a tree the same grammar matched), so it ends with a symbol of LAST(start)",
                         "assumption A2: the number of items between two terminators is not bounded by a constant (a constant-bounded slice of the line buffer is not the whole buffer)",
                         "lemma L1: a polynomial linear in a loop position j, 0 <= j <= count-1, is minimal at j=0 (positive coefficient) or j=count-1 (negative coefficient)",
@@ -110,6 +149,8 @@ def run(ctx):
     r2(ctx, g)
     r3(ctx, g)
     r5(ctx, g)
+    r7(ctx, g)
+    r8(ctx, g)
     # the STRING terminal decides where a literal ends: its regex structure (C12.R4) is a necessary condition for every
     # valid profile to lex into the tokens written
     from rules import c12
@@ -2607,3 +2648,595 @@ def r5(ctx, g: Grammar):
         ctx.rep.ob("R5", "GRAM", f"c2profile.lark::{origin_}::{name} {{}}", ok, f"block `{name}` of rule {origin_} has an alternative with an empty body={ok}" + ("" if ok else ": an empty block is rejected by the parser"),
                    "dissect/cobaltstrike/c2profile.lark", 0)
     ctx.rep.count("block_forms", n, floor=25)
+
+
+# =====================================================================================================================
+# R7 - lexical precedence of the ignored terminals (comments and whitespace are ignored in EVERY parser state).
+#
+# lark's lalr lexers (basic and contextual) try the terminals of a parser state as ONE alternation in the order
+#     (-priority, -max_width, -len(pattern), name)          [lark/lexer.py, BasicLexer.__init__]
+# and python's alternation takes the first alternative that matches, not the longest.  The ignored terminals are offered
+# in every state.  Hence: if a non-ignored terminal T of a reachable rule stands BEFORE an ignored terminal I in that
+# order and some word of T is the beginning of a word of I, then in every parser state that can expect T a comment (or
+# whitespace) that starts with that word is handed to the parser as T - it is not ignored any more, and a profile that
+# differs from an accepted one only by a comment is rejected or read differently.
+# The rule works on the compiled terminal table and on regex SYNTAX TREES (first-character classes, the shape F C* of the
+# ignored terminal, existence of a word of T inside F C*); no text is ever lexed.
+# =====================================================================================================================
+class _Cls:
+    """A class of single characters from a regex syntax tree: literals, ranges, categories, possibly negated."""
+
+    __slots__ = ("neg", "lits", "ranges", "cats")
+    _CATS = {
+        "CATEGORY_SPACE": (lambda ch: ch.isspace(), False), "CATEGORY_NOT_SPACE": (lambda ch: ch.isspace(), True),
+        "CATEGORY_DIGIT": (lambda ch: ch.isdecimal(), False), "CATEGORY_NOT_DIGIT": (lambda ch: ch.isdecimal(), True),
+        "CATEGORY_WORD": (lambda ch: ch.isalnum() or ch == "_", False), "CATEGORY_NOT_WORD": (lambda ch: ch.isalnum() or ch == "_", True),
+    }
+
+    def __init__(self, neg=False, lits=(), ranges=(), cats=()):
+        self.neg = neg
+        self.lits = frozenset(lits)
+        self.ranges = tuple(ranges)
+        self.cats = tuple(cats)
+
+    def simple(self):
+        return not self.cats
+
+    def contains(self, c: int):
+        """Is the character with code c in the class?  True / False / None (a category the rule does not know)."""
+        m = c in self.lits or any(lo <= c <= hi for lo, hi in self.ranges)
+        if not m:
+            for cat in self.cats:
+                spec = self._CATS.get(cat)
+                if spec is None:
+                    return None
+                if spec[0](chr(c)) != spec[1]:
+                    m = True
+                    break
+        return m != self.neg
+
+    def size(self):
+        """Number of characters named by a class without categories (ignoring the negation)."""
+        return len(self.lits) + sum(hi - lo + 1 for lo, hi in self.ranges)
+
+    def common(self, o: "_Cls"):
+        """Is there a character in both classes?  True / False / None (not decided)."""
+        a, b = self, o
+        if a.neg and b.neg:
+            return True if a.simple() and b.simple() else None  # two finite exclusion sets do not exhaust the alphabet
+        if a.neg:
+            a, b = b, a
+        unknown = False  # a is positive
+        for c in a.lits:
+            r = b.contains(c)
+            if r:
+                return True
+            unknown = unknown or r is None
+        if b.neg:
+            for lo, hi in a.ranges:
+                if b.simple() and hi - lo + 1 > b.size():
+                    return True  # the range has more characters than the other class excludes
+                unknown = True
+            return None if unknown or a.cats else False
+        for c in b.lits:
+            r = a.contains(c)
+            if r:
+                return True
+            unknown = unknown or r is None
+        if any(lo <= hi2 and lo2 <= hi for lo, hi in a.ranges for lo2, hi2 in b.ranges) or set(a.cats) & set(b.cats):
+            return True
+        if (a.cats and (b.ranges or b.cats)) or (b.cats and a.ranges):
+            unknown = True
+        return None if unknown else False
+
+    def __repr__(self):
+        items = [repr(chr(c)) for c in sorted(self.lits)] + [f"{chr(lo)!r}-{chr(hi)!r}" for lo, hi in self.ranges] + [c.replace("CATEGORY_", "\\").lower() for c in self.cats]
+        return ("not " if self.neg else "") + "{" + ",".join(items) + "}"
+
+
+def _char_item(op, arg):
+    """The class of a syntax-tree item that consumes exactly one character (else None)."""
+    name = str(op)
+    if name == "LITERAL":
+        return _Cls(False, [arg])
+    if name == "NOT_LITERAL":
+        return _Cls(True, [arg])
+    if name == "ANY":
+        return _Cls(True, [10])  # `.` without DOTALL (terminals with flags are not analysed)
+    if name == "IN":
+        neg, lits, ranges, cats = False, [], [], []
+        for o, a in arg:
+            n = str(o)
+            if n == "NEGATE":
+                neg = True
+            elif n == "LITERAL":
+                lits.append(a)
+            elif n == "RANGE":
+                ranges.append((a[0], a[1]))
+            elif n == "CATEGORY":
+                cats.append(str(a))
+            else:
+                return None
+        return _Cls(neg, lits, ranges, cats)
+    return None
+
+
+def _first_classes(seq):
+    """(classes, nullable): the characters a word of the regex syntax tree `seq` can start with.  None: not determined
+    (look-around, anchors, back references before the first character)."""
+    out = []
+    for op, arg in seq:
+        name = str(op)
+        c = _char_item(op, arg)
+        if c is not None:
+            return out + [c], False
+        if name == "SUBPATTERN":
+            if arg[1] or arg[2]:
+                return None  # inline flags
+            sub = _first_classes(list(arg[-1]))
+        elif name == "BRANCH":
+            subs = [_first_classes(list(a)) for a in arg[1]]
+            if any(s is None for s in subs):
+                return None
+            sub = ([c for s in subs for c in s[0]], any(s[1] for s in subs))
+        elif name in ("MAX_REPEAT", "MIN_REPEAT", "POSSESSIVE_REPEAT"):
+            sub = _first_classes(list(arg[2]))
+            if sub is not None and arg[0] == 0:
+                sub = (sub[0], True)
+        else:
+            return None
+        if sub is None:
+            return None
+        out.extend(sub[0])
+        if not sub[1]:
+            return out, False
+    return out, True
+
+
+def _f_c_star(seq):
+    """(F, C) if the syntax tree denotes exactly F C* or C+ with single-character classes F and C (every word f c1 .. ck is
+    then in the language), else None."""
+    seq = list(seq)
+
+    def star(item, least):
+        if str(item[0]) in ("MAX_REPEAT", "MIN_REPEAT") and item[1][0] == least and str(item[1][1]) == "MAXREPEAT" and len(item[1][2]) == 1:
+            return _char_item(*item[1][2][0])
+        return None
+
+    if len(seq) == 2:
+        f, c = _char_item(*seq[0]), star(seq[1], 0)
+        if f is not None and c is not None:
+            return f, c
+    if len(seq) == 1:
+        c = star(seq[0], 1)
+        if c is not None:
+            return c, c
+    return None
+
+
+def _word_inside(seq, f: _Cls, c: _Cls):
+    """Does the regex syntax tree `seq` have a non-empty word that lies in F C* (first character in F, the others in C)?
+    True / False / None.  Computed on the tree: the set of `started` flags reachable by matching `seq` with every consumed
+    character taken from the class that is due."""
+    unknown = []
+
+    def step(seq, states):
+        for op, arg in seq:
+            if not states:
+                return states
+            name = str(op)
+            ch = _char_item(op, arg)
+            if ch is not None:
+                nxt = set()
+                for s in states:
+                    r = ch.common(c if s else f)
+                    if r:
+                        nxt.add(True)
+                    elif r is None:
+                        unknown.append(name)
+                states = nxt
+            elif name == "SUBPATTERN" and not arg[1] and not arg[2]:
+                states = step(list(arg[-1]), states)
+            elif name == "BRANCH":
+                states = set().union(*[step(list(a), set(states)) for a in arg[1]])
+            elif name in ("MAX_REPEAT", "MIN_REPEAT"):
+                lo, hi, sub = arg
+                acc = set(states) if lo == 0 else set()
+                cur = set(states)
+                for k in range(1, 4):  # the state space has two elements: the third round adds nothing new
+                    if str(hi) != "MAXREPEAT" and k > hi:
+                        break
+                    cur = step(list(sub), cur)
+                    if k >= min(lo, 3):
+                        acc |= cur
+                states = acc
+            else:
+                unknown.append(name)
+                return set()
+        return states
+
+    res = step(list(seq), {False})
+    if True in res:
+        return True
+    return None if unknown else False
+
+
+def r7(ctx, g: Grammar):
+    where = "c2profile.lark"
+    defs = {t.name: t for t in getattr(g.lark, "terminals", [])}
+    ignored = sorted(n for n in g.ignored if n in defs)
+    if g.options.get("parser") != "lalr" or not ignored or g.options.get("lexer") not in (None, "basic", "contextual", "standard"):
+        for n in ignored or ["<ignored terminals>"]:
+            ctx.undecided("R7", "GRAM", where, f"ignored terminal {n} keeps lexical precedence",
+                          f"parser options {g.options}: the terminal order of lark's lalr lexers (priority, width, length, name) is what this rule reasons about")
+        return
+    used = sorted({s.name for r in g.rules for s in r.expansion if s.is_term} - set(g.ignored))
+
+    def key(t):
+        return (-t.priority, -t.pattern.max_width, -len(t.pattern.value), t.name)
+
+    def tree_of(t):
+        if t.pattern.flags:
+            return None
+        if type(t.pattern).__name__ == "PatternStr":
+            return [("LITERAL", ord(ch)) for ch in t.pattern.value]
+        return _regex_tree(t.pattern.value)
+
+    for name in ignored:
+        ti = defs[name]
+        itree = tree_of(ti)
+        ifirst = _first_classes(itree) if itree is not None else None
+        shape = _f_c_star(itree) if itree is not None and type(ti.pattern).__name__ != "PatternStr" else None
+        certain, maybe, behind = [], [], []
+        for tn in used:
+            t = defs.get(tn)
+            if t is None:
+                continue
+            ttree = tree_of(t)
+            tfirst = _first_classes(ttree) if ttree is not None else None
+            if ifirst is None or tfirst is None:
+                overlap = None
+            else:
+                rs = [a.common(b) for a in ifirst[0] for b in tfirst[0]]
+                overlap = True if any(r for r in rs) else None if any(r is None for r in rs) else False
+            if overlap is False:
+                continue  # no word of T starts like a word of I
+            if key(ti) < key(t):
+                behind.append(tn)  # I is tried first: text that starts like I is always ignored
+                continue
+            inside = _word_inside(ttree, *shape) if shape is not None and ttree is not None else None
+            (certain if inside else maybe).append((tn, t))
+        text = f"ignored terminal {name} keeps lexical precedence"
+        pat = f"{name} = {ti.pattern.value!r} (priority {ti.priority})"
+        if certain:
+            tn, t = certain[0]
+            ctx.ob("R7", "GRAM", where, text, False,
+                   f"terminal {tn} = {t.pattern.value!r} (priority {t.priority}) is tried before the ignored {pat} by lark's lexer (order: priority, width, length, name; first match wins) and "
+                   f"has a word that begins a word of {name}: in every parser state that can expect {tn}, text that should be skipped as {name} is handed to the parser as {tn} - it is no longer ignored "
+                   f"there, so a profile with such text is rejected or read differently" + (f" (+{len(certain) - 1} more)" if len(certain) > 1 else ""))
+        elif maybe:
+            ctx.undecided("R7", "GRAM", where, text,
+                          f"terminal(s) {[tn for tn, _t in maybe][:4]} are tried before the ignored {pat} and may start with the same character; whether one of their words begins a word of {name} is "
+                          f"not decided from the syntax trees")
+        else:
+            ctx.ob("R7", "GRAM", where, text, True,
+                   f"{pat}: no terminal of a reachable rule that can start with the same character is tried before it by lark's lexer (order: priority, width, length, name; first match wins)"
+                   + (f"; terminals starting alike but tried after it: {behind}" if behind else "; no terminal of a reachable rule starts with a character it can start with"),
+                   nontrivial=bool(behind))
+    ctx.rep.count("ignored_terminals", len(ignored), floor=3)
+
+
+# =====================================================================================================================
+# R8 - the tree the parser produced is the tree the reconstructor prints: no node of it is structurally modified on the way.
+#
+# Every token the Reconstructor prints comes from a node of the tree (kept terminals are its leaves, the filtered keywords
+# are re-inserted from the rule a node matches), so a source token can only survive if its node does.  The rule follows,
+# inside one function and into the package functions it calls, which values MAY BE A PART of a parse tree (def-use /
+# may-alias value flow, flow-insensitive, names and dotted paths as abstract locations):
+#   T  a node, a `children` list or another part of a parse tree - whatever is read off a T by attribute, index, iteration,
+#      unpacking or a method call is T again (lark's Tree.copy() shares the children list);
+#   E  a fresh collection / iterator whose ELEMENTS are parts (list(..), sorted(..), a slice, a comprehension, enumerate ..):
+#      changing the collection itself is harmless, its elements are T;
+#   P  a profile object whose `.tree` attribute holds a parse tree.
+# Sources: the result of a `.parse(...)` call; an object whose `.tree` attribute is assigned a T; in a renderer the object
+# whose `.tree` is handed to `reconstruct`; the result of a package function that returns a T / P.
+# Sinks (structural modifications): a mutator method called on a T, an item / slice store or `del` on a T, a store or `del`
+# of the `children` / `data` attribute of a T, an in-place `+=` / `*=` on a T.
+# =====================================================================================================================
+_KT, _KE, _KP = "T", "E", "P"
+_TREE_MUTATORS = frozenset({"append", "insert", "extend", "pop", "remove", "sort", "reverse", "clear", "__setitem__", "__delitem__", "__iadd__", "__imul__",
+                            "expand_kids_by_data", "set", "update", "add", "discard"})
+_FRESH_COLLECTIONS = frozenset({"list", "tuple", "sorted", "reversed", "enumerate", "zip", "iter", "filter", "map", "set", "frozenset", "itertools.chain", "chain"})
+_ELEMENT_FUNCS = frozenset({"next", "getattr", "copy.copy", "max", "min"})
+_VALUE_METHODS = frozenset({"pretty", "__deepcopy__", "count", "index", "__hash__", "__eq__", "__len__", "startswith", "endswith", "lower", "upper", "strip", "lstrip", "rstrip",
+                            "split", "replace", "encode", "decode", "format", "join"})
+_INPLACE_VISITORS = frozenset({"visit", "visit_topdown", "transform"})
+
+
+def _kjoin(a, b):
+    for k in (_KT, _KE, _KP):
+        if a == k or b == k:
+            return k
+    return None
+
+
+class _TreeFlow:
+    def __init__(self, ctx):
+        self.ctx = ctx
+        self.cache = {}
+
+    # ------------------------------------------------------------------------------------------------ values
+    def kind(self, f: Func, e, env, depth):
+        if e is None:
+            return None
+        if isinstance(e, ast.Name):
+            return env.get(e.id)
+        if isinstance(e, ast.Attribute):
+            d = dotted(e)
+            if d and d in env:
+                return env[d]
+            b = self.kind(f, e.value, env, depth)
+            if b == _KP:
+                return _KT if e.attr == "tree" else None
+            return _KT if b == _KT else None
+        if isinstance(e, ast.Subscript):
+            b = self.kind(f, e.value, env, depth)
+            if b in (_KT, _KE):
+                return _KE if isinstance(e.slice, ast.Slice) else _KT
+            return None
+        if isinstance(e, ast.Starred):
+            return self.kind(f, e.value, env, depth)
+        if isinstance(e, ast.NamedExpr):
+            return self.kind(f, e.value, env, depth)
+        if isinstance(e, ast.IfExp):
+            return _kjoin(self.kind(f, e.body, env, depth), self.kind(f, e.orelse, env, depth))
+        if isinstance(e, ast.BoolOp):
+            k = None
+            for v in e.values:
+                k = _kjoin(k, self.kind(f, v, env, depth))
+            return k
+        if isinstance(e, ast.BinOp):  # list concatenation / repetition builds a fresh list of the same elements
+            ks = (self.kind(f, e.left, env, depth), self.kind(f, e.right, env, depth))
+            return _KE if any(k in (_KT, _KE) for k in ks) else None
+        if isinstance(e, (ast.Tuple, ast.List, ast.Set)):
+            return _KE if any(self.kind(f, x, env, depth) in (_KT, _KE) for x in e.elts) else None
+        if isinstance(e, (ast.ListComp, ast.SetComp, ast.GeneratorExp)):
+            env2 = dict(env)
+            for gen in e.generators:
+                if self.kind(f, gen.iter, env2, depth) in (_KT, _KE):
+                    for n in ast.walk(gen.target):
+                        if isinstance(n, ast.Name):
+                            env2[n.id] = _KT
+            return _KE if self.kind(f, e.elt, env2, depth) in (_KT, _KE) else None
+        if isinstance(e, ast.Await):
+            return self.kind(f, e.value, env, depth)
+        if isinstance(e, ast.Call):
+            return self.call_kind(f, e, env, depth)
+        return None
+
+    def call_kind(self, f: Func, c: ast.Call, env, depth):
+        args = list(c.args) + [k.value for k in c.keywords]
+        if isinstance(c.func, ast.Attribute):
+            if c.func.attr == "parse" and self.kind(f, c.func.value, env, depth) is None:
+                return _KT  # source: the parser's tree
+            rk = self.kind(f, c.func.value, env, depth)
+            if rk == _KT:
+                if c.func.attr in _VALUE_METHODS:
+                    return None
+                if c.func.attr == "copy" and isinstance(c.func.value, ast.Attribute) and c.func.value.attr == "children":
+                    return _KE  # list.copy(): a fresh list of the same nodes
+                return _KT  # navigation (iter_subtrees, find_data, scan_values, pop ..) hands out parts; Tree.copy() shares the children
+            if rk == _KE:
+                return _KT if c.func.attr in ("pop", "__getitem__", "get", "__next__") else _KE if c.func.attr == "copy" else None
+        d = dotted(c.func) or ""
+        if d in ("copy.deepcopy", "deepcopy"):
+            return None
+        aks = [self.kind(f, a, env, depth) for a in args]
+        if d in _FRESH_COLLECTIONS:
+            return _KE if any(k in (_KT, _KE) for k in aks) else None
+        if d in _ELEMENT_FUNCS:
+            return _KT if any(k in (_KT, _KE) for k in aks) else None
+        summ = self.callee_summary(f, c, env, depth)
+        if summ is not None:
+            return summ[0]
+        cal = self.ctx.rs.resolve_call(f, c)
+        if cal.kind in ("class", "external", "unresolved") and d.split(".")[-1][:1].isupper():
+            # a constructor that is handed a part keeps it (Tree(data, children) stores the list it is given)
+            if any(k == _KT for k in aks):
+                return _KT
+            if any(k == _KE for k in aks):
+                return _KE
+        return None
+
+    def callee_summary(self, f: Func, c: ast.Call, env, depth):
+        """(kind of the result, findings, hand-offs) of a call of a package function, else None."""
+        if depth >= 4:
+            return None
+        cal = self.ctx.rs.resolve_call(f, c)
+        if cal.kind != "func" or cal.func is None or isinstance(cal.func.node, ast.Lambda):
+            return None
+        tgt = cal.func
+        ps = params(tgt.node)
+        seeds = {}
+        skip = 0
+        if tgt.cls and ps and ps[0] in ("self", "cls") and (isinstance(c.func, ast.Attribute) or cal.recv_type):
+            skip = 1
+            if ps[0] == "self" and isinstance(c.func, ast.Attribute):
+                rk = self.kind(f, c.func.value, env, depth)
+                if rk:
+                    seeds[ps[0]] = rk
+        rest = ps[skip:]
+        for i, a in enumerate(c.args):
+            if isinstance(a, ast.Starred) or i >= len(rest):
+                break
+            k = self.kind(f, a, env, depth)
+            if k:
+                seeds[rest[i]] = k
+        for kw in c.keywords:
+            if kw.arg and kw.arg in rest:
+                k = self.kind(f, kw.value, env, depth)
+                if k:
+                    seeds[kw.arg] = k
+        if not seeds and tgt.module.name != MOD:
+            return None
+        return self.analyse(tgt, seeds, depth + 1)
+
+    # ------------------------------------------------------------------------------------------------ one function
+    def analyse(self, f: Func, seeds, depth=0):
+        key = (f.fq, tuple(sorted(seeds.items())))
+        hit = self.cache.get(key)
+        if hit is not None:
+            return hit
+        self.cache[key] = (None, [], [])  # recursion: nothing is known about a call in progress
+        env = dict(seeds)
+        nodes = list(ast.walk(f.node))
+
+        def bind(t, k):
+            if k is None:
+                return False
+            if isinstance(t, ast.Name):
+                new = _kjoin(env.get(t.id), k)
+                if new != env.get(t.id):
+                    env[t.id] = new
+                    return True
+                return False
+            if isinstance(t, (ast.Tuple, ast.List)):
+                ch = False
+                for x in t.elts:
+                    ch = bind(x, _KT if k in (_KT, _KE) else None) or ch
+                return ch
+            if isinstance(t, ast.Starred):
+                return bind(t.value, _KE if k in (_KT, _KE) else None)
+            if isinstance(t, ast.Attribute):
+                ch = False
+                if t.attr == "tree" and k == _KT and isinstance(t.value, ast.Name) and self.kind(f, t.value, env, depth) is None:
+                    ch = bind(t.value, _KP)
+                d = dotted(t)
+                if d and self.kind(f, t, env, depth) is None and env.get(d) != k:
+                    env[d] = k
+                    ch = True
+                return ch
+            return False
+
+        for _ in range(12):
+            changed = False
+            for n in nodes:
+                if isinstance(n, ast.Assign):
+                    k = self.kind(f, n.value, env, depth)
+                    for t in n.targets:
+                        changed = bind(t, k) or changed
+                elif isinstance(n, ast.AnnAssign) and n.value is not None:
+                    changed = bind(n.target, self.kind(f, n.value, env, depth)) or changed
+                elif isinstance(n, ast.NamedExpr):
+                    changed = bind(n.target, self.kind(f, n.value, env, depth)) or changed
+                elif isinstance(n, (ast.For, ast.AsyncFor)):
+                    if self.kind(f, n.iter, env, depth) in (_KT, _KE):
+                        for x in ast.walk(n.target):
+                            if isinstance(x, ast.Name):
+                                changed = bind(x, _KT) or changed
+                elif isinstance(n, (ast.With, ast.AsyncWith)):
+                    for it in n.items:
+                        if it.optional_vars is not None:
+                            changed = bind(it.optional_vars, self.kind(f, it.context_expr, env, depth)) or changed
+            if not changed:
+                break
+        findings, handoffs, seen = [], [], set()
+
+        def found(node, what):
+            if id(node) not in seen:
+                seen.add(id(node))
+                findings.append((f, node, what))
+
+        for n in nodes:
+            if isinstance(n, ast.Call):
+                if isinstance(n.func, ast.Attribute) and n.func.attr in _TREE_MUTATORS and self.kind(f, n.func.value, env, depth) == _KT:
+                    found(n, f"`{src(n)[:80]}` changes `{src(n.func.value)[:50]}`, a part of the parse tree, in place")
+                    continue
+                summ = self.callee_summary(f, n, env, depth)
+                if summ is not None:
+                    for fd in summ[1]:
+                        if id(fd[1]) not in seen:
+                            seen.add(id(fd[1]))
+                            findings.append(fd)
+                    handoffs.extend(h for h in summ[2] if h not in handoffs)
+                elif isinstance(n.func, ast.Attribute) and n.func.attr in _INPLACE_VISITORS and self.kind(f, n.func.value, env, depth) is None \
+                        and any(self.kind(f, a, env, depth) == _KT for a in list(n.args) + [k.value for k in n.keywords]):
+                    h = (f, n, f"`{src(n)[:80]}` hands a part of the parse tree to lark's visit / transform dispatch (which callback runs on which node is decided by the library)")
+                    if h not in handoffs:
+                        handoffs.append(h)
+            elif isinstance(n, (ast.Assign, ast.AugAssign, ast.Delete, ast.AnnAssign)):
+                tgts = n.targets if isinstance(n, (ast.Assign, ast.Delete)) else [n.target]
+                flat = [x for t in tgts for x in (t.elts if isinstance(t, (ast.Tuple, ast.List)) else [t])]
+                verb = "deletes" if isinstance(n, ast.Delete) else "stores into"
+                for t in flat:
+                    if isinstance(t, ast.Starred):
+                        t = t.value
+                    if isinstance(t, ast.Subscript) and self.kind(f, t.value, env, depth) == _KT:
+                        found(n, f"`{src(n)[:80]}` {verb} an item of `{src(t.value)[:50]}`, a part of the parse tree")
+                    elif isinstance(t, ast.Attribute) and t.attr in ("children", "data") and self.kind(f, t.value, env, depth) == _KT:
+                        found(n, f"`{src(n)[:80]}` {verb} `.{t.attr}` of `{src(t.value)[:50]}`, a node of the parse tree")
+                    elif isinstance(n, ast.AugAssign) and isinstance(t, (ast.Name, ast.Attribute)) and isinstance(n.op, (ast.Add, ast.Mult)) and self.kind(f, t, env, depth) == _KT \
+                            and isinstance(n.value, (ast.List, ast.ListComp, ast.Tuple, ast.Call, ast.Name, ast.Attribute, ast.Subscript)):
+                        found(n, f"`{src(n)[:80]}` extends `{src(t)[:50]}`, a part of the parse tree, in place")
+        ret = None
+        for n in nodes:
+            if isinstance(n, ast.Return) and n.value is not None:
+                ret = _kjoin(ret, self.kind(f, n.value, env, depth))
+        res = (ret, findings, handoffs)
+        self.cache[key] = res
+        return res
+
+
+def r8(ctx, g=None):
+    mod = ctx.repo.module(MOD)
+    renderers = _by_role(ctx, "C2Profile.as_text", lambda fn: bool(_reconstruct_calls(ctx, fn)))
+    readers = _by_role(ctx, "C2Profile.from_text", _stores_parsed_tree, lambda fn: bool(_tree_stores(fn)))
+    flow = _TreeFlow(ctx)
+    reported = set()
+
+    def emit(f: Func, text, res, ok_detail):
+        _ret, findings, handoffs = res
+        new = [fd for fd in findings if id(fd[1]) not in reported]
+        if findings and not new:
+            return  # the same statement is already reported for the function it is reached from
+        reported.update(id(fd[1]) for fd in new)
+        if new:
+            fn, node, what = new[0]
+            at = "" if fn.fq == f.fq else f" (in {fn.qualname}, reached from {f.qualname})"
+            ctx.ob("R8", "ALIAS", f, text, False, what + at + ": the node's tokens are no longer (or differently) printed by the Reconstructor, the regenerated text loses or changes tokens of the source"
+                   + (f" (+{len(new) - 1} more)" if len(new) > 1 else ""), node)
+        elif handoffs:
+            ctx.undecided("R8", "ALIAS", f, text, handoffs[0][2] + ": whether it modifies the tree is not decided", handoffs[0][1])
+        else:
+            ctx.ob("R8", "ALIAS", f, text, True, ok_detail)
+
+    n = 0
+    for f in readers:
+        n += 1
+        emit(f, "parsed tree is not modified", flow.analyse(f, {}),
+             f"{f.qualname}: nothing that may be a part of the parser's tree (followed through attributes, items, iteration, unpacking, navigation methods and calls of package functions) is the "
+             "target of a mutator call, an item / slice store or delete, a store to `.children` / `.data` or an in-place extension")
+    for f in renderers:
+        n += 1
+        seeds = {}
+        for call, _mk in _reconstruct_calls(ctx, f):
+            tree = _lark_arg(call, 0, "tree")
+            tv = _inl(f, tree) if tree is not None else None
+            if isinstance(tv, ast.Attribute) and tv.attr == "tree" and isinstance(tv.value, ast.Name) and tv.value.id in params(f.node):
+                seeds[tv.value.id] = _KP
+            elif isinstance(tv, ast.Name) and tv.id in params(f.node):
+                seeds[tv.id] = _KT
+        if not seeds and params(f.node) and f.cls:
+            seeds[params(f.node)[0]] = _KP
+        emit(f, "profile tree is not modified", flow.analyse(f, seeds),
+             f"{f.qualname}: nothing that may be a part of the profile's tree is the target of a mutator call, an item / slice store or delete, a store to `.children` / `.data` or an in-place "
+             "extension before it is handed to the Reconstructor (lark's Reconstructor is part of the trusted base)")
+    # any other function of the module that obtains a parsed tree / profile (from the parser or through a reader) and modifies it
+    done = {f.fq for f in readers} | {f.fq for f in renderers}
+    for _q, f in sorted(mod.funcs.items()):
+        if f.fq in done or f.parent is not None:
+            continue
+        res = flow.analyse(f, {})
+        if res[1]:
+            emit(f, "parsed tree is not modified", res, "")
+    ctx.rep.count("tree_flow_functions", n, floor=2)
